@@ -165,8 +165,8 @@ def check_structure(st, canon, digest_kw, prefix="decoy_"):
 
     inc = {}
     for n, toks in st["proteins"].items():
-        seq = "".join(toks)
-        dseq = "".join(datagen.decoy_token(t) for t in toks)
+        seq = datagen.protein_seq(st, n)
+        dseq = datagen.protein_seq(st, n, decoy=True)
         for name, s in ((n, seq), (prefix + n, dseq)):
             peps = mokapot.digest(s, **digest_kw) if s else set()
             if peps:
